@@ -753,10 +753,10 @@ fn gen_specs(property: &str, seed: u64, tier: Tier, corpus: &Corpus, n: usize) -
             // swarm: a third of the runs are short histories on one document, fault free
             let shape = rng.below(6);
             let cfg = match shape {
-                0 | 1 => C29Config { max_docs: 1, max_edits: 3, faulty: false, reopen: false, config_changes: false },
-                2 => C29Config { max_docs: 2, max_edits: 5, faulty: false, reopen: true, config_changes: false },
-                3 => C29Config { max_docs: 1, max_edits: 4, faulty: true, reopen: true, config_changes: true },
-                _ => C29Config { max_docs: 3, max_edits: if tier == Tier::Thorough { 12 } else { 8 }, faulty: true, reopen: true, config_changes: true },
+                0 | 1 => C29Config { max_docs: 1, max_edits: 3, faulty: false, reopen: false, config_changes: false, derived: false },
+                2 => C29Config { max_docs: 2, max_edits: 5, faulty: false, reopen: true, config_changes: false, derived: true },
+                3 => C29Config { max_docs: 1, max_edits: 4, faulty: true, reopen: true, config_changes: true, derived: true },
+                _ => C29Config { max_docs: 3, max_edits: if tier == Tier::Thorough { 12 } else { 8 }, faulty: true, reopen: true, config_changes: true, derived: true },
             };
             workload::gen_c29(&mut rng, corpus, &cfg)
         } else {
@@ -800,7 +800,7 @@ fn run_batch(ctx: &Ctx, tier: Tier, corpus: &Corpus, emit_log: Option<&Path>) ->
     let seed = simcore::env_seed();
     let property = ctx.property.as_str();
     let n = match (property, tier) {
-        ("C29", Tier::Quick) => 1500,
+        ("C29", Tier::Quick) => 2500,
         ("C29", Tier::Thorough) => 40_000,
         (_, Tier::Quick) => 3000,
         (_, Tier::Thorough) => 30_000,
